@@ -216,3 +216,22 @@ def check_sign_printing(ctx: Ctx, rule: str):
     else:
         v = pm.vetted("c", r)
         ctx.check(bool(v) and v.get("ok", False), rule, "c-printer::sign::value", f"{r} (vetted)", f"C printer: sign falls through to {r}, which has not been vetted as value-preserving", "")
+
+
+def check_float_repr(ctx: Ctx, rule: str, printer: str):
+    """A Float literal is printed as the shortest round-trip repr of its float64 value (str(float(x))): sympy's own printer
+    keeps 15 significant digits, and any rounding or formatting in between changes constants of the generated module."""
+    from . import util
+
+    M = model(ctx)
+    fl = M.method(printer, "_print_Float")
+    key = f"{printer}-printer::Float::repr"
+    if fl is None:
+        ctx.fail(rule, key, f"{printer} printer has no _print_Float of its own (sympy prints 15 significant digits)", "")
+        return
+    ft = util.printed_text(ctx, fl)
+    p0 = fl.params[1] if len(fl.params) > 1 else "flt"
+    if ft is None:
+        ctx.undecided(rule, key, "what _print_Float returns is not understood", fl.where())
+    else:
+        ctx.check(ft in ("{float(" + p0 + ")}", "{repr(float(" + p0 + "))}"), rule, key, "Float -> shortest round-trip repr", f"{printer} printer: a Float is printed as `{ft}`, not as str(float(value)) (digits would be lost or added)", fl.where())
